@@ -16,6 +16,7 @@ pub fn name(sc: &Scen) -> String {
             Leftover::None => "",
             Leftover::Junk => "+junk",
             Leftover::Stale => "+stale",
+            Leftover::CrlfStale => "+crlf+stale",
         };
         let k = if r.kind == ReqKind::Get && r.interim == Interim::None {
             String::new()
@@ -338,6 +339,7 @@ pub fn enumerate(thorough: bool) -> (Vec<Scen>, Vec<u32>, Value) {
                 variants.push((Fault::None, Leftover::None));
                 variants.push((Fault::None, Leftover::Junk));
                 variants.push((Fault::None, Leftover::Stale));
+                variants.push((Fault::None, Leftover::CrlfStale));
             }
             variants.push((Fault::Fin(r.framed_len), Leftover::None));
             variants.push((Fault::Reset(r.framed_len), Leftover::None));
